@@ -19,8 +19,7 @@ RULE = ("JONSWAP wind seas steep enough for non-zero ST4/ST6 dissipation (steepn
 ASSUMPTIONS = ["solver step tolerance 0.01 m/s -> root bracketed within +-0.03 m/s or |G| <= 0.03 |G'|",
                "points whose implicit roughness is NaN at the returned wind are not judged (allowed by C10)"]
 REQUIRED_MONITORS = ["C11.zero-dissipation=>u10==0", "C11.u10-closes-balance", "C11.u10>0-or-NaN",
-                     "C11.direction==dissipation-direction", "C11.not-degenerate(finite-when-root-exists)",
-                     "C11.entry-points-agree"]
+                     "C11.direction==dissipation-direction", "C11.not-degenerate(finite-when-root-exists)"]
 REQUIRED_COUNTERS = {"C11.points_with_root_on_scan": 5, "C11.points_zero_dissipation": 2, "C11.pair:st4/st4": 2,
                      "C11.pair:st4/st6": 2, "C11.with_dEdt": 2}
 TIMEOUT = {"quick": 2400, "thorough": 7200}
@@ -108,7 +107,8 @@ def judge(ctx, c):
         """mechanism classifier for 'NaN although the balance has a root': does another first guess converge at
         these points?  (a regression that returns NaN for *every* guess is a different mechanism)"""
         rescued = np.zeros(n, dtype=bool)
-        for gval in (guess * 0.8, guess * 1.25, guess * 0 + 10.0):
+        tries = [guess * f_ for f_ in (0.3, 0.5, 0.8, 1.25, 2.0, 3.0)] + [guess * 0 + g_ for g_ in (5.0, 8.0, 10.0, 15.0, 20.0, 30.0)]
+        for gval in tries:
             try:
                 r_ = windspeed_and_direction_from_spectra(b, gval, s, time_derivative_spectrum=sdot)
                 rescued |= np.isfinite(np.asarray(r_["u10"].values, float))
@@ -125,9 +125,26 @@ def judge(ctx, c):
                   {"u10": u10, "has_root": has_root, "first_guess": np.asarray(guess.values), "G_at_scan": Gs[::6, :]},
                   key=nan_key(bad) if bad.any() else None)
     # returned values close the balance
-    judge_pts = nz & np.isfinite(u10) & (u10 > 0.05)
-    if judge_pts.any():
-        uu = np.where(judge_pts, u10, 5.0)
+    def closes_balance(uvals, label):
+        # below ~3 m/s only a handful of bins is forced: the balance function is a flat staircase (|G| ~ 1e-9, slope
+        # ~ 1e-9 per m/s) and a 0.01 m/s step tolerance does not translate into a distance to the root; those
+        # points are counted, not judged (the code itself documents low-wind answers as inaccurate)
+        ctx.count("C11.points_not_judged(u10 < 3 m/s)", int((nz & np.isfinite(uvals) & (uvals <= 3.0)).sum()))
+        judge_pts = nz & np.isfinite(uvals) & (uvals > 3.0)
+        if not judge_pts.any():
+            return
+        uu = np.where(judge_pts, uvals, 5.0)
+        # precondition: the implicit roughness at the returned wind must be unambiguous. The roughness equation can
+        # have several solutions / false convergences (C10 known finding); the inversion warm-starts it while
+        # the public bulk_rate cold-starts it, so on such points the two evaluate different balance functions.
+        ud, dd_ = wl.da(uu), wl.da(dis_dir)
+        zc = np.asarray(b.generation.roughness(ud, dd_, s).values, float)
+        amb = ~np.isfinite(zc)
+        for fz in (0.2, 5.0):
+            zg = np.asarray(b.generation.roughness(ud, dd_, s, roughness_length_guess=wl.da(np.where(np.isfinite(zc), zc, 1e-3) * fz)).values, float)
+            amb |= ~np.isfinite(zg) | (np.abs(zg - zc) > 1e-3 * np.abs(zc))
+        ctx.count("C11.points_not_judged(implicit roughness ambiguous at u10)", int((judge_pts & amb).sum()))
+        judge_pts = judge_pts & ~amb
         h = 0.03
         g0 = G_of(b, s, c, uu, dis_dir, dis_bulk, dEdt, area)
         gm = G_of(b, s, c, np.maximum(uu - h, 1e-3), dis_dir, dis_bulk, dEdt, area)
@@ -138,11 +155,14 @@ def judge(ctx, c):
         ctx.count("C11.points_not_judged(nan roughness near u10)", int((judge_pts & ~usable).sum()))
         okp = (gm * gp <= 0) | (np.abs(g0) <= h * slope)
         ctx.check("C11.u10-closes-balance", bool(np.all(okp[usable])), wit,
-                  {"u10": u10, "G(u10-h)": gm, "G(u10)": g0, "G(u10+h)": gp, "usable": usable}, key="C11:balance")
+                  {"entry": label, "u10": uvals, "G(u10-h)": gm, "G(u10)": g0, "G(u10+h)": gp, "usable": usable},
+                  key="C11:balance")
         with np.errstate(divide="ignore", invalid="ignore"):
             dist = np.abs(g0) / np.where(slope > 0, slope, np.nan)
         if np.any(usable & np.isfinite(dist)):
             ctx.ratio("C11.u10-closes-balance", float(np.nanmax(dist[usable])), h)
+
+    closes_balance(u10, "estimate_u10_from_source_terms")
     # second entry point with its own (perturbed) first guess must find the same root
     guess2 = guess * float(c["guess_factor"])
     ok, res2 = guarded(ctx, "C11.no-exception",
@@ -150,9 +170,17 @@ def judge(ctx, c):
                        key="C11:exception")
     if ok:
         u2 = np.asarray(res2["u10"].values, float)
+        # the second entry point (other first guess) must satisfy the same balance criterion - it need not return
+        # the same number: with a rate-of-change spectrum the balance jumps where bins become actively forced and
+        # may cross zero more than once
+        closes_balance(u2, "windspeed_and_direction_from_spectra")
         both = np.isfinite(u10) & np.isfinite(u2)
-        ctx.check("C11.entry-points-agree", bool(np.all(np.abs(u10[both] - u2[both]) <= 0.1)), wit,
-                  {"u10": u10, "u10_second": u2, "guess_factor": c["guess_factor"]}, key="C11:entry-points")
+        ctx.count("C11.entry_points_differ_by_more_than_0.1", int(np.sum(np.abs(u10[both] - u2[both]) > 0.1)))
+        ctx.check("C11.second-entry-point:zero-dissipation=>u10==0", bool(np.all(u2[zero] == 0.0)), wit, {"u10": u2},
+                  key="C11:zero:second")
+        d2 = np.asarray(res2["direction"].values, float)
+        ctx.check("C11.direction==dissipation-direction", bool(np.array_equal(d2, dis_dir, equal_nan=True)), wit,
+                  {"direction": d2}, key="C11:direction:second")
         ctx.case((c["kind"], pair, "from_spectra", dEdt is not None), nontrivial=bool(has_root.any()))
         if parametric and has_root.any():
             bad = has_root & ~np.isfinite(u2)
@@ -167,9 +195,25 @@ def make(rng, i):
     kind = ["windsea", "windsea", "mixed", "swell"][i % 4]
     c = wl.make_case(rng, kind=kind, npoints=int(rng.integers(1, 9)), nd=int(rng.choice([24, 36])))
     E = np.asarray(c["E"])
-    # a smooth rate of change: growth/decay of the whole spectrum at a relative rate of +-(0.2..2)e-5 1/s
-    rate = rng.uniform(0.2e-5, 2e-5, (E.shape[0], 1, 1)) * rng.choice([-1.0, 1.0], (E.shape[0], 1, 1))
-    c.update({"pair": pair, "dEdt": (E * rate) if i % 3 == 1 else None,
+    # rate-of-change spectrum whose support avoids bins that switch between forced and unforced as U10 varies
+    # (there the balance function jumps and "vanishes" is not well defined): (a) bins that are always actively
+    # forced near the root - downwind (cos > 0.5) and well above the peak (f >= 1.6 fp) - and (b) upwind bins
+    # (cos < -0.2), which are never forced and must therefore NOT enter the balance.
+    dEdt = None
+    if i % 3 == 1:
+        e1 = E.sum(axis=-1)
+        fpk = c["freq"][np.argmax(e1, axis=-1)]  # (npoints,)
+        kx = (E * np.cos(np.deg2rad(c["dir"]))[None, None, :] * (c["freq"] ** 2)[None, :, None]).sum(axis=(1, 2))
+        ky = (E * np.sin(np.deg2rad(c["dir"]))[None, None, :] * (c["freq"] ** 2)[None, :, None]).sum(axis=(1, 2))
+        th = np.degrees(np.arctan2(ky, kx))  # approximately the dissipation-weighted direction
+        cosm = np.cos(np.deg2rad(c["dir"][None, :] - th[:, None]))  # (npoints, nd)
+        hi_f = c["freq"][None, :] >= 1.6 * fpk[:, None]  # (npoints, nf)
+        always = hi_f[:, :, None] & (cosm[:, None, :] > 0.5)
+        never = np.broadcast_to((cosm[:, None, :] < -0.2), E.shape)
+        rate = rng.uniform(0.2e-5, 2e-5, (E.shape[0], 1, 1)) * rng.choice([-1.0, 1.0], (E.shape[0], 1, 1))
+        emax = E.max(axis=(1, 2), keepdims=True)
+        dEdt = np.where(always, E * rate, 0.0) + np.where(never, 0.02 * emax * np.abs(rate), 0.0)
+    c.update({"pair": pair, "dEdt": dEdt,
               "guess_factor": float(rng.choice([0.6, 1.0, 1.5]))})
     return c
 
